@@ -731,6 +731,60 @@ def _worker(args):
     return out
 
 
+def _reload_and_rearrange(ctx):
+    """second-generation datasets: a dataset that CAME BACK from a load (its mazes may be views into the loader's big arrays) is
+    rearranged by its owner — reversed, shuffled, thinned, two swapped, wrapped in a new MazeDataset — and written again in every format,
+    in memory and through a file. Judged by the property's oracle against a snapshot taken just before the second write."""
+    from maze_dataset import MazeDataset
+    wd = str(ctx.workdir)
+    done = 0
+    for idx in range(400):
+        if done >= (6 if ctx.quick else 60) or ctx.violations: break
+        rng = random.Random(f"C05:{ctx.seed}:rearrange:{idx}")
+        rc = make_recipe(rng, "quick", idx)
+        if rc["mode"] not in MODES_OK or not rc.get("guard_ok", True) or len(rc["mazes"]) < 3: continue
+        done += 1
+        for fmt1, ser1 in FORMATS:
+            try:
+                first = MazeDataset.load(getattr(materialise(rc), ser1)())
+            except Exception:
+                continue       # the first trip is judged by eval_recipe
+            n = len(first.mazes)
+            for how in ("reverse", "shuffle", "swap", "thin", "inplace_reverse"):
+                order = list(range(n))
+                if how in ("reverse", "inplace_reverse"): order.reverse()
+                elif how == "shuffle": rng.shuffle(order)
+                elif how == "swap": order[0], order[-1] = order[-1], order[0]
+                else: order = order[::2]
+                for fmt2, ser2 in FORMATS:
+                    for route in ("mem", "file"):
+                        again = MazeDataset.load(getattr(materialise(rc), ser1)())       # a fresh loaded dataset per trial
+                        if how == "inplace_reverse":
+                            again.mazes.reverse(); ds2 = again
+                        else:
+                            cfg2 = copy.deepcopy(again.cfg); cfg2.n_mazes = len(order)
+                            ds2 = MazeDataset(cfg2, [again.mazes[i] for i in order], generation_metadata_collected=copy.deepcopy(again.generation_metadata_collected))
+                        snap = snapshot(ds2)
+                        by_ser = ds2.generation_metadata_collected is None and fmt2 != "full"      # the minimal writers collect the metadata themselves (and record it)
+                        case = dict(rearranged=True, recipe_index=idx, first_format=fmt1, how=how, order=order, second_format=fmt2, route=route, n=n)
+                        ctx.case([idx, fmt1, how, fmt2, route], nontrivial=True); ctx.count(f"rearranged:{how}")
+                        try:
+                            if route == "mem":
+                                back = MazeDataset.load(getattr(ds2, ser2)())
+                            else:
+                                from zanj import ZANJ
+                                pth = os.path.join(wd, "re.zanj")
+                                if os.path.exists(pth): os.remove(pth)
+                                ZANJ().save(getattr(ds2, ser2)(), pth); back = MazeDataset.read(pth)
+                            bad = oracle(snap, back, by_ser, ds2)
+                        except Exception as e:
+                            bad = [f"raised {type(e).__name__}: {str(e)[:160]}"]
+                        if bad:
+                            ctx.violate(f"a dataset of {n} mazes loaded from the {fmt1} format, rearranged by its owner ({how}: positions {order}) and written again in the "
+                                        f"{fmt2} format ({route}) does not come back as it was: " + "; ".join(bad[:3]), case)
+                            return
+
+
 def _collection_routes(ctx):
     """collections the way the LIBRARY builds them — MazeDatasetCollection.generate(cfg) from member configs, and collections that
     were themselves loaded — saved and read back (memory and file), twice in a row, under thresholds that put some members in a
@@ -818,6 +872,7 @@ def run(ctx):
         thr = crng.choice([None, 1, max(lens) + 1, max(1, min(l for l in lens if l > 0) if any(lens) else 1), 2, 0 if k % 8 == 7 else 3])
         results.append(eval_collection(members, thr, collected=(k % 5 == 0), workdir=wd))
     _collection_routes(ctx)
+    if not ctx.violations: _reload_and_rearrange(ctx)
     for R in results:
         _merge(ctx, R, pairs)
     outs = ctx.driver.run_parallel([p[0] for p in pairs])
@@ -832,6 +887,7 @@ def search(ctx):
     """oracle-only exploration of the real code with the same generators (wider), stops at the first violation"""
     warnings.filterwarnings("ignore")
     _collection_routes(ctx)
+    if not ctx.violations: _reload_and_rearrange(ctx)
     if ctx.violations: return
     wd = str(ctx.workdir)
     for idx in range(400 if ctx.quick else 3000):
@@ -856,6 +912,8 @@ def search(ctx):
 def replay(ctx, rp):
     if isinstance(rp.get('case'), dict) and rp['case'].get('collection_route'):
         _collection_routes(ctx); return
+    if isinstance(rp.get('case'), dict) and rp['case'].get('rearranged'):
+        _reload_and_rearrange(ctx); return
     case = rp.get("case", rp)
     wd = str(ctx.workdir)
     if "members" in case:
